@@ -103,7 +103,7 @@ fn one<X: Sx, Y: Sx>(ctx: &Ctx, idx: u64, l: usize, m: usize, all_flips: bool) {
         }
     }
     // a commitment shifted by a small-order point (outside the prime-order subgroup) with its Fiat-Shamir
-    // challenge ground so that the verification equation still holds (c = 0 mod 3 kills the torsion part)
+    // challenge ground so that the verification equation still holds (the torsion part must vanish in C*(-c))
     if let Some(t3) = crate::c04::order3_point(&mut r) {
         use crate::refimpl as rf;
         use group::Curve;
@@ -131,7 +131,8 @@ fn one<X: Sx, Y: Sx>(ctx: &Ctx, idx: u64, l: usize, m: usize, all_flips: bool) {
             v.extend_from_slice(&tainted.to_affine().to_compressed());
             v.extend_from_slice(&rf::g1_c(&cbar));
             let ch = rf::hash_to_scalar(X::ID, &v, &dst).unwrap();
-            if ch.to_be_bytes().iter().fold(0u32, |a, b| (a * 256 + *b as u32) % 3) != 0 {
+            // the verifier multiplies the commitment by -c = r - c (r = 1 mod 3): the order-3 part vanishes iff c = 1 mod 3
+            if ch.to_be_bytes().iter().fold(0u32, |a, b| (a * 256 + *b as u32) % 3) != 1 {
                 continue;
             }
             let mut out = tainted.to_affine().to_compressed().to_vec();
